@@ -143,14 +143,17 @@ func (c *Cluster) execScan(sc *Conn, req *wire.Request, m *pb.ScanRequest) *Repl
 	c.MetaScans++
 	e.Method = "MetaScan"
 	c.logExecLocked(Exec{Addr: e.Addr, Conn: e.Conn, CallID: e.CallID, Method: "MetaScanArrived", Region: e.Region, Row: e.Row})
-	if c.MetaHold {
+	held := func() bool {
+		return c.MetaHold || len(c.MetaHoldPrefix) > 0 && bytes.HasPrefix(e.Row, c.MetaHoldPrefix)
+	}
+	if held() {
 		// answer later, without blocking the connection's request loop (further requests
 		// must keep arriving - and being time-stamped - while this one is held)
 		c.wg.Add(1)
 		go func() {
 			defer c.wg.Done()
 			c.mu.Lock()
-			for c.MetaHold && !c.stopped && sc.closedBy == "" && !sc.Pair.ClientClosed() {
+			for held() && !c.stopped && sc.closedBy == "" && !sc.Pair.ClientClosed() {
 				c.cond.Wait()
 			}
 			gone := c.stopped || sc.closedBy != "" || sc.Pair.ClientClosed()
@@ -233,6 +236,11 @@ func (c *Cluster) metaReplyLocked(e Exec, m *pb.ScanRequest) *Reply {
 	}
 	for _, r := range sel {
 		cells := metaRowCellsWith(r, corrupt)
+		if edit != nil && edit.Stop != nil && corrupt == nil {
+			rr := *r
+			rr.Stop = edit.Stop
+			cells = metaRowCellsWith(&rr, nil)
+		}
 		if edit != nil {
 			for i := range cells {
 				if edit.RowKey != nil {
